@@ -63,16 +63,18 @@ Section WithHash.
   Qed.
 
   (* ---------------- __check_auth ---------------- *)
-  (* a pair is acceptable: it names the controller and, when executors are configured, an
-     executor holding the role (not the controller itself) signed for exactly this operation *)
-  Definition pair_good (xa : list (addr * op)) (a : ac) (p : ctx * meta) : Prop :=
+  (* a pair is acceptable: it names the controller and, when executors are configured, names an
+     account holding the executor role that signed for exactly this operation - or the controller
+     itself holding the role, inside an end-to-end call (invoker-contract authorisation) *)
+  Definition pair_good (direct : bool) (xa : list (addr * op)) (a : ac) (p : ctx * meta) : Prop :=
     exists o, pair_op p = Some o /\
       (role_count a EXECUTOR = 0 \/
-       exists x, m_exec (snd p) = Some x /\ holds a x EXECUTOR = true /\ x <> self cf /\ xa_has xa x o = true).
+       exists x, m_exec (snd p) = Some x /\ holds a x EXECUTOR = true /\
+                 (x = self cf /\ direct = false \/ x <> self cf /\ xa_has xa x o = true)).
 
-  Lemma check_ctx_spec xa s c m s' :
-    check_ctx xa s c m = Ok s' ->
-    pair_good xa (acs s) (c, m) /\
+  Lemma check_ctx_spec direct xa s c m s' :
+    check_ctx direct xa s c m = Ok s' ->
+    pair_good direct xa (acs s) (c, m) /\
     exists o t, pair_op (c, m) = Some o /\ set_execute_operation hash (ctl s) o = Ok t /\ s' = with_ctl s t.
   Proof.
     unfold TimelockController.check_ctx, pair_good, TimelockController.pair_op. cbn [fst snd].
@@ -81,7 +83,8 @@ Section WithHash.
     set (o := Op contract f a (m_pred m) (m_salt m)).
     intros H.
     assert (Hex : (role_count (acs s) EXECUTOR = 0 \/
-                   exists x, m_exec m = Some x /\ holds (acs s) x EXECUTOR = true /\ x <> self cf /\ xa_has xa x o = true)
+                   exists x, m_exec m = Some x /\ holds (acs s) x EXECUTOR = true /\
+                             (x = self cf /\ direct = false \/ x <> self cf /\ xa_has xa x o = true))
                   /\ exists t, set_execute_operation hash (ctl s) o = Ok t /\ s' = with_ctl s t).
     { destruct (role_count (acs s) EXECUTOR =? 0) eqn:E0.
       - apply Z.eqb_eq in E0. cbn [bind] in H.
@@ -89,49 +92,54 @@ Section WithHash.
         inversion H. split; [left; exact E0|]. exists t. auto.
       - destruct (m_exec m) as [x|]; [|discriminate].
         destruct (holds (acs s) x EXECUTOR) eqn:Eh; cbn [negb] in H; [|discriminate].
-        destruct (N.eqb x (self cf)) eqn:Ex; [discriminate|].
-        destruct (xa_has xa x o) eqn:Exa; cbn [guard bind] in H; [|discriminate].
-        destruct (set_execute_operation hash (ctl s) o) as [t|]; cbn [bind] in H; [|discriminate].
-        inversion H. split.
-        + right. exists x. repeat split; auto. apply N.eqb_neq. exact Ex.
-        + exists t. auto. }
+        destruct (N.eqb x (self cf)) eqn:Ex.
+        * destruct direct; [discriminate|]. cbn [bind] in H.
+          destruct (set_execute_operation hash (ctl s) o) as [t|]; cbn [bind] in H; [|discriminate].
+          inversion H. apply N.eqb_eq in Ex. split.
+          -- right. exists x. split; [reflexivity|]. split; [first [exact Eh|reflexivity]|]. left. auto.
+          -- exists t. auto.
+        * destruct (xa_has xa x o) eqn:Exa; cbn [guard bind] in H; [|discriminate].
+          destruct (set_execute_operation hash (ctl s) o) as [t|]; cbn [bind] in H; [|discriminate].
+          inversion H. split.
+          -- right. exists x. split; [reflexivity|]. split; [first [exact Eh|reflexivity]|]. right. split; [apply N.eqb_neq; exact Ex|first [exact Exa|reflexivity]].
+          -- exists t. auto. }
     destruct Hex as [Hg (t & Ht & ->)]. split.
     - exists o. split; [reflexivity|exact Hg].
     - exists o, t. split; [reflexivity|]. split; [exact Ht|reflexivity].
   Qed.
 
-  Lemma check_loop_spec xa l : forall s s',
-    check_loop xa s l = Ok s' ->
+  Lemma check_loop_spec direct xa l : forall s s',
+    check_loop direct xa s l = Ok s' ->
     acs s' = acs s /\ cruns s' = cruns s /\
-    Forall (pair_good xa (acs s)) l /\
+    Forall (pair_good direct xa (acs s)) l /\
     exec_all (ctl s) (ops_of l) = Ok (ctl s').
   Proof.
     induction l as [|[c m] l IH]; intros s s' H; cbn [TimelockController.check_loop] in H.
     - inversion H; subst. repeat split; auto.
-    - destruct (check_ctx xa s c m) as [s1|] eqn:E; cbn [bind] in H; [|discriminate].
+    - destruct (check_ctx direct xa s c m) as [s1|] eqn:E; cbn [bind] in H; [|discriminate].
       apply check_ctx_spec in E. destruct E as (Hg & o & t & Hpo & Hse & ->).
       destruct (IH _ _ H) as (Ha & Hc & Hf & He). cbn [with_ctl acs cruns ctl] in *.
       split; [exact Ha|]. split; [exact Hc|]. split; [constructor; assumption|].
       cbn [TimelockController.ops_of]. rewrite Hpo. cbn [TimelockController.exec_all]. rewrite Hse. cbn [bind]. exact He.
   Qed.
 
-  Lemma pair_good_op xa a l : Forall (pair_good xa a) l -> length (ops_of l) = length l.
+  Lemma pair_good_op direct xa a l : Forall (pair_good direct xa a) l -> length (ops_of l) = length l.
   Proof.
     induction 1 as [|p l (o & Ho & _) _ IH]; [reflexivity|].
     cbn [TimelockController.ops_of]. rewrite Ho. cbn [length]. rewrite IH. reflexivity.
   Qed.
 
   (* what one successful authorisation consumed *)
-  Definition consumed (s : state) (xa : list (addr * op)) (pairs : list (ctx * meta)) (s1 : state) : Prop :=
-    acs s1 = acs s /\ cruns s1 = cruns s /\ Forall (pair_good xa (acs s)) pairs /\
+  Definition consumed (direct : bool) (s : state) (xa : list (addr * op)) (pairs : list (ctx * meta)) (s1 : state) : Prop :=
+    acs s1 = acs s /\ cruns s1 = cruns s /\ Forall (pair_good direct xa (acs s)) pairs /\
     exec_all (ctl s) (ops_of pairs) = Ok (ctl s1).
 
-  Lemma consumed_nil s xa : consumed s xa [] s.
+  Lemma consumed_nil direct s xa : consumed direct s xa [] s.
   Proof. repeat split; auto. Qed.
 
-  Theorem check_auth_spec s metas ctxs xa s' :
-    check_auth s metas ctxs xa = Ok s' ->
-    length metas = length ctxs /\ consumed s xa (combine ctxs metas) s'.
+  Theorem check_auth_spec direct s metas ctxs xa s' :
+    check_auth direct s metas ctxs xa = Ok s' ->
+    length metas = length ctxs /\ consumed direct s xa (combine ctxs metas) s'.
   Proof.
     unfold TimelockController.check_auth. destruct (Nat.eqb (length metas) (length ctxs)) eqn:E; cbn [negb]; [|discriminate].
     apply Nat.eqb_eq in E. intros H. split; [exact E|]. apply check_loop_spec in H. exact H.
@@ -149,7 +157,7 @@ Section WithHash.
 
   Lemma require_auth_spec s au root a s1 :
     require_auth s au root a = Ok s1 ->
-    exists pairs, auth_spec au root a pairs /\ consumed s (a_exec au) pairs s1.
+    exists pairs, auth_spec au root a pairs /\ consumed false s (a_exec au) pairs s1.
   Proof.
     unfold TimelockController.require_auth, auth_spec. destruct (N.eqb a (self cf)).
     - destruct (a_self au) as [se|]; [|discriminate].
@@ -162,7 +170,7 @@ Section WithHash.
   Qed.
 
   Definition auth_ok (s : state) (c : call) (a : addr) (s1 : state) : Prop :=
-    exists pairs, auth_spec (authz_of c) (root_of c) a pairs /\ consumed s (a_exec (authz_of c)) pairs s1.
+    exists pairs, auth_spec (authz_of c) (root_of c) a pairs /\ consumed false s (a_exec (authz_of c)) pairs s1.
 
   Ltac dres H x E :=
     match type of H with
@@ -331,7 +339,7 @@ Section WithHash.
 
   Lemma check_auth_call_spec s metas ctxs xa s' r :
     step_ok s (CheckAuth metas ctxs xa) = Ok (s', r) ->
-    length metas = length ctxs /\ consumed s xa (combine ctxs metas) s' /\ r = None.
+    length metas = length ctxs /\ consumed true s xa (combine ctxs metas) s' /\ r = None.
   Proof.
     cbn [TimelockController.step_ok]. intros H. dres H s1 E. inversion H; subst.
     apply check_auth_spec in E. destruct E. auto.
@@ -428,7 +436,7 @@ Section WithHash.
     step_ok s c = Ok (s', r) ->
     exists pairs s1,
       pairs_of (admin (acs s)) (role_count (acs s) EXECUTOR) (admin (acs s')) c = Some pairs /\
-      consumed s (a_exec (authz_of c)) pairs s1 /\ own_effect c s s1 s' r.
+      consumed (is_direct c) s (a_exec (authz_of c)) pairs s1 /\ own_effect c s s1 s' r.
   Proof.
     intros H. destruct c as [o d p au|o x tgt au|i k au|d au|a ro k au|a ro k au|ro k au|ro ar au|new lu au|au|au|metas ctxs xa|n].
     - apply schedule_op_spec in H. destruct H as (Hh & s1 & t & (pairs & Ha & Hc) & Hs & -> & ->).
